@@ -49,7 +49,7 @@ Qed.
    equal to the highest claim once everything is published - accepts the model's history.  The same checker judges
    the implementation's histories in the correspondence run. *)
 Theorem C14_single_sequencer_api : forall size ng l,
-  SeqApiProofs.sp_wf (SeqApi.sp_init size ng) [] l = true ->
+  SeqApi.sp_wf (SeqApi.sp_init size ng) [] l = true ->
   SeqApi.check true SeqApi.c_init l (SeqApi.sp_run (SeqApi.sp_init size ng) l) = 0%N.
 Proof. exact SeqApiProofs.sp_property. Qed.
 
@@ -59,14 +59,14 @@ Proof. exact SeqApiProofs.sp_property. Qed.
    published, cursor below the highest claim).  Verdicts 1-4 - a claim that does not continue the previous one or has
    the wrong length, a cursor that decreases, a cursor PAST AN UNPUBLISHED SEQUENCE - are impossible. *)
 Theorem C14_multi_sequencer_api : forall k ng l,
-  SeqApiMulti.mp_wf (SeqApi.mp_init (2 ^ k) ng) [] l = true ->
+  SeqApi.mp_wf (SeqApi.mp_init (2 ^ k) ng) [] l = true ->
   SeqApi.check false SeqApi.c_init l (SeqApi.mp_run (SeqApi.mp_init (2 ^ k) ng) l) = 0%N \/
   SeqApi.check false SeqApi.c_init l (SeqApi.mp_run (SeqApi.mp_init (2 ^ k) ng) l) = 5%N.
 Proof. exact SeqApiMulti.mp_property. Qed.
 
 (* verdict 5 does occur: finding D8 on the model (two claims published in the opposite order) *)
 Theorem C14_multi_stranding_refuted :
-  exists l, SeqApiMulti.mp_wf (SeqApi.mp_init 8 1) [] l = true /\
+  exists l, SeqApi.mp_wf (SeqApi.mp_init 8 1) [] l = true /\
             SeqApi.check false SeqApi.c_init l (SeqApi.mp_run (SeqApi.mp_init 8 1) l) = 5%N.
 Proof. eexists. exact SeqApiMulti.mp_stranding. Qed.
 
